@@ -104,6 +104,8 @@ class FormulaExec:
             if n.id not in self.env:
                 if self.C is not None and self.C.name(n.id) in self.C.cls:
                     return ('clsname', self.C.name(n.id))
+                if self.C is not None and n.id in self.C.consts:
+                    return ('num', self.C.consts[n.id])
                 self.err(n, 'unknown name')
             return self.env[n.id]
         if isinstance(n, ast.Attribute):
@@ -296,6 +298,25 @@ class Classes:
     def __init__(self, tree: ast.Module) -> None:
         self.cls: dict[str, ast.ClassDef] = {}
         self.alias: dict[str, str] = {}
+        # module-level numeric constants (NAME = 0.001 / NAME: Final = 0.001), bound exactly once in the whole module:
+        # a formula that names one reads the literal
+        self.consts: dict[str, Any] = {}
+        bound: dict[str, int] = {}
+        for sub in ast.walk(tree):
+            if isinstance(sub, ast.Name) and isinstance(sub.ctx, (ast.Store, ast.Del)):
+                bound[sub.id] = bound.get(sub.id, 0) + 1
+            elif isinstance(sub, (ast.Global, ast.Nonlocal)):
+                for nm in sub.names:
+                    bound[nm] = bound.get(nm, 0) + 2
+        for n in tree.body:
+            tgt = n.targets[0] if isinstance(n, ast.Assign) and len(n.targets) == 1 else getattr(n, 'target', None) \
+                if isinstance(n, ast.AnnAssign) else None
+            val = getattr(n, 'value', None)
+            if isinstance(tgt, ast.Name) and bound.get(tgt.id) == 1:
+                neg = isinstance(val, ast.UnaryOp) and isinstance(val.op, ast.USub)
+                lit = val.operand if neg else val
+                if isinstance(lit, ast.Constant) and isinstance(lit.value, (int, float)) and not isinstance(lit.value, bool):
+                    self.consts[tgt.id] = -lit.value if neg else lit.value
         for n in tree.body:
             if isinstance(n, ast.ClassDef):
                 self.cls[n.name] = n
@@ -459,9 +480,13 @@ def extract_formulas(C: Classes) -> dict[str, Any]:
         raise TranslateError(f'_to_angle: expected exactly two paths, found {len(paths)}')
     ta: dict[str, Any] = {}
     for conds, stmts in paths:
-        if len(conds) != 1 or not isinstance(conds[0][0], ast.Compare) or len(conds[0][0].ops) != 1:
+        if len(conds) != 1:
             raise TranslateError('_to_angle: expected one comparison guarding the gimbal-lock branch')
         test, taken = conds[0]
+        while isinstance(test, ast.UnaryOp) and isinstance(test.op, ast.Not):      # `if not (a > b)`: the other branch of a > b
+            test, taken = test.operand, not taken
+        if not isinstance(test, ast.Compare) or len(test.ops) != 1:
+            raise TranslateError('_to_angle: expected one comparison guarding the gimbal-lock branch')
         s, a = Obj('s'), Obj(None)
         ex = FormulaExec('_to_angle', {ps[0]: s, ps[1]: a}, C)
         ex.run(stmts)
@@ -481,6 +506,8 @@ def extract_formulas(C: Classes) -> dict[str, Any]:
         if opn not in ('Gt', 'GtE', 'Lt', 'LtE'):
             raise TranslateError(f'_to_angle: guard operator {opn}')
         guard = (gex.num(gex.ev(test.left)), opn, gex.num(gex.ev(test.comparators[0])))
+        if guard[0][0] == 'num' and guard[2][0] != 'num':      # `0.001 < h` is `h > 0.001`
+            guard = (guard[2], {'Gt': 'Lt', 'Lt': 'Gt', 'GtE': 'LtE', 'LtE': 'GtE'}[opn], guard[0])
         if 'guard' in ta and ta['guard'] != guard:
             raise TranslateError('_to_angle: inconsistent guard')
         ta['guard'] = guard
@@ -633,6 +660,21 @@ def reified_coq(F: dict[str, Any]) -> tuple[str, dict]:
         lhs_p, lhs = poly_of(L[2]), 'GSqrt'
     else:
         lhs_p, lhs = poly_of(L), 'GPoly'
+    def gexpr(ir: Any) -> str:
+        if ir[0] == 'call' and ir[1] == 'sqrt':
+            return f'(GSqrt {coq_poly(poly_of(ir[2]))})'
+        return f'(GPoly {coq_poly(poly_of(ir))})'
+
+    def comp_cfg(c: tuple) -> str:
+        """One component of the angle, reified; COther when it is not atan2 of polynomials / square roots of polynomials."""
+        try:
+            if c[0] == 'const':
+                fr = Fraction(repr(c[1])) if isinstance(c[1], float) else Fraction(c[1])
+                return f'CConst ({fr.numerator}#{fr.denominator})%Q' if fr.numerator >= 0 else f'CConst (({fr.numerator})#{fr.denominator})%Q'
+            return f'CAtan2 {gexpr(c[1])} {gexpr(c[2])}'
+        except TranslateError:
+            return 'COther'
+    pitch_cfg = {br: comp_cfg(ta[br]['pitch']) for br in ('main', 'lock')}
     to_s = lambda v: 's.' + v[2:] if v.startswith('o.') else v      # noqa: E731
     self_p = [poly_of(e) for e in F['mat_mul_self']]
     ss_p = [poly_of(_subst(e, to_s)) for e in F['mat_mul']]
@@ -642,11 +684,14 @@ def reified_coq(F: dict[str, Any]) -> tuple[str, dict]:
            '(* the test that selects the non-degenerate branch of _to_angle: operator, left operand, literal *)',
            f'Definition ta_guard_cfg : guard_cfg := GuardCfg {dict(Gt="CGt", GtE="CGe", Lt="CLt", LtE="CLe")[op]} '
            f'({lhs} {coq_poly(lhs_p)}) ({thr.numerator}#{thr.denominator})%Q.', '',
+           '(* the pitch component of the result of _to_angle in the non-degenerate and in the gimbal-lock branch *)',
+           f'Definition ta_pitch_main_cfg : comp_cfg := {pitch_cfg["main"]}.',
+           f'Definition ta_pitch_lock_cfg : comp_cfg := {pitch_cfg["lock"]}.', '',
            '(* the nine entries of self._mat_mul(self) as executed with one object on both sides ... *)',
            'Definition mat_mul_self_polys : list poly := [\n  ' + ';\n  '.join(coq_poly(p) for p in self_p) + '].',
            '(* ... and of the product formula with `other` replaced by `self` *)',
            'Definition mat_mul_ss_polys : list poly := [\n  ' + ';\n  '.join(coq_poly(p) for p in ss_p) + '].', '']
-    side = {'guard_operator': op, 'guard_left_operand': f'{lhs} {coq_poly(lhs_p)}', 'guard_literal': str(thr),
+    side = {'guard_operator': op, 'guard_left_operand': f'{lhs} {coq_poly(lhs_p)}', 'guard_literal': str(thr), 'pitch': pitch_cfg,
             'alias_rows_equal': [self_p[i:i + 3] == ss_p[i:i + 3] for i in (0, 3, 6)]}
     return '\n'.join(out), side
 
